@@ -6,6 +6,12 @@ hooks = subprocess.run(["git", "-C", "/repo", "log", "--format=%H %s"], capture_
 hook_commits = [l.split()[0] for l in hooks if l.split(" ", 1)[1].startswith("verif:")]
 
 CHECKS = {
+ "C09": dict(engine="encrypt", design="§5 C09", technique="TLC-enumerated decision table Policy.tla (SecureDefault, FailClosed, precedence) and shape grammar Walk.tla (the reflection walk transcribed; NoLeak on the intended design, every deviation in a named class) + one implementation run per model state on the real encrypt.Filter",
+   text="TLC evaluates, for every class/operation spelling x override map x wrapper state (20k vectors) and for every payload shape of the grammar up to the depth bound (785 at depth 4), what the filter must do; each vector is built with reflect (unique canaries at the leaves), run through the real Process, and each leaf classified by trial (redacted marker, decryption, HMAC recomputation, canary still readable in the value or in its JSON rendering). Shapes that leak or panic and belong to a recorded deviation class are reported as KNOWN-FINDING; any other leak, panic, wrong form or partial result is a violation.",
+   note="Known findings F9a-d, F11, F12, F13 (known_findings.json). Interface-typed fields, arrays and []*string fields are outside the statement's grammar. AES-GCM / HKDF are trusted."),
+ "C10": dict(engine="encrypt", design="§5 C10", technique="same vector spaces as C09 (Policy.tla, Walk.tla, pointer-tag vectors): each input is built twice from the model's description and compared structurally after Process; output compared with the input's skeleton",
+   text="For every model vector the payload is constructed twice (the second build is the deep snapshot, independent of any copy library); after the real Process the input must equal the snapshot, the output must have the same dynamic type, container lengths, key sets, public-classified and non-string values, and with all operations none the very same event must be returned.",
+   note="Exported fields only. Known finding F11 (public value under a depth-2 pointer tag is redacted)."),
  "C13": dict(engine="sinks", design="§5 C13", technique="TLC-enumerated decision table and concurrent-call model (Sinks.tla) + one implementation run per model vector on the real writer.Sink, FileSink and ChannelSink",
    text="TLC checks the sink decision table (missing format => error, write failure/short write => error, success => exactly the configured format's bytes) and, for concurrent Process calls, that every acknowledged call's bytes are in the output once and contiguous (fails without the mutex); each vector is then run on the real sinks with a recording, deliberately slow writer that flags overlapping entry, 1/4/16 callers, /dev/null, stdout, stderr and /dev/full paths; ChannelSink is run for every ordering of channel-ready, timeout and context-done instants.",
    note="ChannelSink timing uses logical instants 70 ms apart; latency is asserted only as 'not later than the earlier of timeout and context + slack'."),
@@ -47,6 +53,7 @@ CHECKS = {
    note="Trusted: harness node Reopen counters."),
 }
 ENGINES = [
+ {"name": "encrypt", "path": "spec/encrypt + harness/encrep + lib/fam_encrypt.py", "serves_properties": ["C09", "C10", "C16"], "kind_free_text": "TLA+ decision tables / shape grammar / key epochs, one implementation test per model state"},
  {"name": "sinks", "path": "spec/sinks + harness/sinksrep + lib/fam_sinks.py", "serves_properties": ["C13"], "kind_free_text": "TLA+ decision table + concurrent-call model, vector replay on real sinks"},
  {"name": "filesink", "path": "spec/filesink + harness/fsrep + lib/fam_filesink.py", "serves_properties": ["C08", "C15"], "kind_free_text": "TLA+ models of FileSink (API level and step level with crash), TLC exhaustive, Go replayer, crash child"},
  {"name": "locks", "path": "spec/locks + harness/locks + lib/fam_locks.py", "serves_properties": ["C12"], "kind_free_text": "TLA+ model of Broker.lock / node mutex with re-entrant callbacks, TLC deadlock + liveness, watchdog scenarios on the real Broker"},
